@@ -926,14 +926,16 @@ def _fold_arg(lst, ismax):
     return ri
 
 
-def amax(x, axis=None, **kw):
+def amax(x, axis=None, initial=None, **kw):
     x = asarray(x)
-    return _reduce(x, axis, lambda l: _fold_max(l, True), x.dtype)
+    ini = [] if initial is None else [initial]
+    return _reduce(x, axis, lambda l: _fold_max(ini + l, True), x.dtype)
 
 
-def amin(x, axis=None, **kw):
+def amin(x, axis=None, initial=None, **kw):
     x = asarray(x)
-    return _reduce(x, axis, lambda l: _fold_max(l, False), x.dtype)
+    ini = [] if initial is None else [initial]
+    return _reduce(x, axis, lambda l: _fold_max(ini + l, False), x.dtype)
 
 
 max = amax
@@ -1217,17 +1219,53 @@ def _prove_sorted(lst):
     if conds:
         neg = z3.Not(z3.And(*conds))
         if e._check(neg):
-            raise Inconclusive('searchsorted: first argument not provably sorted')
+            return False
+    return True
+
+
+def _binsearch(al, keys, side):
+    """NumPy's binary search (npy_binsearch) replayed with forking comparisons; used when the
+    first argument is not provably sorted, where the result is implementation-defined."""
+    n = len(al)
+    lo, hi = 0, n
+    out = []
+    last = None
+    for k in keys:
+        if last is not None:
+            if _b.bool(last < k):
+                hi = n
+            else:
+                lo = 0
+                hi = hi + 1 if hi < n else n
+        last = k
+        while lo < hi:
+            mid = lo + ((hi - lo) >> 1)
+            c = (al[mid] <= k) if side == 'right' else (al[mid] < k)
+            if _b.bool(c):
+                lo = mid + 1
+            else:
+                hi = mid
+        out.append(lo)
+    return out
 
 
 def searchsorted(a, v, side='left', sorter=None):
     """Count-based (non-forking) model; requires `a` sorted (proved at the call site)."""
     a = asarray(a)
     al = a.a.ravel().tolist()
-    if _b.any(isinstance(t, Sym) for t in al):
-        _prove_sorted(al)
     scalar = not isinstance(v, (ndarray, list, tuple, _np.ndarray))
     v_ = asarray(v)
+    if _b.any(isinstance(t, Sym) for t in al) or not a.is_conc():
+        if not _prove_sorted(al):
+            r = _binsearch(al, v_.a.ravel().tolist(), side)
+            res = _wrap(_np.array(r, dtype=_np.int64).reshape(v_.shape))
+            return res if not scalar else res[()]
+    elif not v_.is_conc():
+        ar = a.real()
+        if ar.size > 1 and not _np.all(ar[:-1] <= ar[1:]):
+            r = _binsearch(al, v_.a.ravel().tolist(), side)
+            res = _wrap(_np.array(r, dtype=_np.int64).reshape(v_.shape))
+            return res if not scalar else res[()]
     if a.is_conc() and v_.is_conc():
         r = _np.searchsorted(a.real(), v_.real() if not scalar else v_.real()[()], side)
         return _wrap(r) if not scalar else _np.int64(r)
